@@ -22,7 +22,7 @@ MANIFEST = {
 }
 
 RULE = ("one command per case: 0-6 parameters mixing value types, every listed spelling of the injected types and of channels, "
-        "names over [a-z0-9_] with leading/double/trailing underscores and digits, optional rename_all in the command attribute, "
+        "names over [a-z0-9_] with leading/double/trailing underscores and digits (some written as raw identifiers r#name, incl. keywords), optional rename_all in the command attribute, "
         "default_parameter_case absent or one of the eight conventions, both modes; plus exhaustive streams (every name over {a,1,_} "
         "up to length 4 x 8 cases; every spelling alone and next to a value parameter in both orders). A case is non-trivial when it "
         "has at least one parameter; distinct = distinct (command, configuration) pairs")
@@ -84,6 +84,7 @@ ODD_TYPES = [
     ("Webview", P(["Webview"])), ("tauri::State", P(["tauri", "State"])), ("my::Channel<String>", P(["my", "Channel"], ["T"])),
     ("tauri::ipc::Channel", P(["tauri", "ipc", "Channel"])), ("tauri::x::AppHandle", P(["tauri", "x", "AppHandle"])),
 ]
+RAW_KEYWORDS = ["type", "match", "ref", "loop", "in", "fn", "async", "move", "box", "dyn", "use", "mod"]
 WORDS = ["user", "id", "name", "x", "a", "b", "on", "ev", "data", "item", "count", "b1", "v2", "is", "ok", "path", "q", "max", "len"]
 LATER_WORDS = WORDS + ["2fa", "1", "3d", "0"]
 
@@ -143,7 +144,18 @@ def random_case(rng, kf_class=None):
         elif r < 0.14 and default_case == "snake_case":
             macro = "snake_case"
     cname = gen_name(rng, set(p[0] for p in params))
-    return mk_case(cname, params, macro, default_case, rng.choice(["tauri::command", "tauri::command", "command"]))
+    c = mk_case(cname, params, macro, default_case, rng.choice(["tauri::command", "tauri::command", "command"]))
+    # raw identifiers: a keyword as the name of a keyed or injected parameter, or r# in front of an ordinary name
+    if c["params"] and rng.random() < 0.12:
+        p = rng.choice(c["params"])
+        if rng.random() < 0.6:
+            kw = rng.choice(RAW_KEYWORDS)
+            if all(q["name"] != kw for q in c["params"]) and set(p["name"]) != {"_"}:
+                p["name"] = kw
+                p["raw"] = True
+        elif set(p["name"]) != {"_"}:
+            p["raw"] = True
+    return c
 
 
 def small_names():
@@ -176,6 +188,11 @@ def exhaustive_spellings():
         for v in (VALUE_TYPES[0], OPTION_TYPES[1], CHANNEL_TYPES[1]):
             cases.append(mk_case("two_cmd", [("the_arg", t), ("other_one", v)]))
             cases.append(mk_case("two_cmd", [("other_one", v), ("the_arg", t)], default_case="snake_case"))
+    for kw in RAW_KEYWORDS:
+        for t in (VALUE_TYPES[0], OPTION_TYPES[0], CHANNEL_TYPES[0], INJECTED_TYPES[0]):
+            c = mk_case("raw_cmd", [(kw, t), ("user_id", VALUE_TYPES[1])], default_case=None if kw < "m" else "SCREAMING_SNAKE_CASE")
+            c["params"][0]["raw"] = True
+            cases.append(c)
     # every pair of an injected spelling and a channel spelling, with a value in between
     for i in INJECTED_TYPES:
         for c in CHANNEL_TYPES[:4]:
@@ -211,7 +228,8 @@ def render_source(case):
     attr = case.get("attr") or "tauri::command"
     if case["macro"]:
         attr += '(rename_all = "%s")' % case["macro"]
-    ps = ", ".join("%s: %s" % (p["name"], p["ty"]) for p in case["params"])
+    # a raw identifier r#name is the parameter called name (repair C01-raw-ident-strip; tauri-macros unraws as well)
+    ps = ", ".join("%s%s: %s" % ("r#" if p.get("raw") else "", p["name"], p["ty"]) for p in case["params"])
     return ("use serde::{Deserialize, Serialize};\nuse std::collections::HashMap;\n\n"
             "#[derive(Debug, Serialize, Deserialize)]\npub struct Item {\n    pub id: i32,\n    pub label: String,\n}\n\n"
             "#[%s]\npub async fn %s%s(%s) {\n}\n" % (attr, case["name"], ("<" + gens + ">") if gens else "", ps))
